@@ -223,7 +223,10 @@ class World:
     def observe(self, with_rows: bool = True, with_sessions: bool = True) -> dict[str, Any]:
         """Σ of DESIGN.md appendix B, from the engine's own system functions through an un-proxied
         cursor (committed view) plus each live session's context through the public API."""
-        from fakesnow.instance import GLOBAL_DATABASE_NAME
+        try:
+            from fakesnow.instance import GLOBAL_DATABASE_NAME
+        except ImportError:  # renamed by a refactoring: fall back to the documented name
+            GLOBAL_DATABASE_NAME = "_fs_global"
 
         cur = self.raw_root().cursor()
         try:
